@@ -1728,6 +1728,8 @@ func (p *parser) parseSimpleStmt(mode int) (ast.Stmt, bool) {
 		typ := p.tryType()
 		if typ == nil {
 			p.error(colonPos, "missing variable type")
+			// keep the ValueSpec well-formed (End() needs a name, a type or a value)
+			typ = &ast.BadExpr{From: colonPos, To: p.pos}
 		}
 
 		var values []ast.Expr
